@@ -115,14 +115,20 @@ def r2(idx, rep):
         k = idx.cls(cls).class_assigns.get("MODE")
         rep.check(isinstance(k, ast.Constant) and k.value == MODE_KEYS.get(cls), "R2", f"{idx.cls(cls).file}::{cls}.MODE key", f"{unparse(k) if k is not None else None} vs {MODE_KEYS.get(cls)!r}", idx.cls(cls).file)
     fg = ci.methods["get"]
-    rep.check("self.csvpath.metadata.get(mode)" in unparse(fg.node), "R2", f"{ci.file}::ModeController.get reads the metadata", "", K.where(fg, fg.node))
+    okg = True
+    for mode in ("return-mode", "run-mode"):
+        _, ps = K.sym_result(idx, "ModeController", "get", args={"mode": mode}, store={"self.csvpath.metadata": {"return-mode": "no-matches", "run-mode": "no-run", "id": "x"},
+                                                                                      "ModeController.MODES": sorted(MODE_KEYS.values())})
+        okg = okg and len(ps) == 1 and ps[0].result == ("return", {"return-mode": "no-matches", "run-mode": "no-run"}[mode])
+    rep.check(okg, "R2", f"{ci.file}::ModeController.get reads the metadata", "", K.where(fg, fg.node))
     # CsvPath.parse / _load_csvpath update the settings after extracting the metadata
     fp = idx.method("CsvPath", "parse")
     m = K.Must(gen=K.call_pred("extract_metadata")).run(fp.node)
     sites = K.find_stmts(fp.node, K.call_pred("update_settings_from_metadata"))
     rep.check(bool(sites) and all(m.in_state.get(s) for s in sites), "R2", f"{fp.file}::CsvPath.parse applies the settings after reading the comment", "", K.where(fp, fp.node))
-    fu = idx.method("CsvPath", "update_settings_from_metadata")
-    rep.check("self.modes.update()" in unparse(fu.node), "R2", f"{fu.file}::CsvPath.update_settings_from_metadata", "", K.where(fu, fu.node))
+    got = []
+    fu, ps = K.sym_result(idx, "CsvPath", "update_settings_from_metadata", handlers={"self.modes.update": lambda i, c, r, a, k: got.append(1)})
+    rep.check(got == [1], "R2", f"{fu.file}::CsvPath.update_settings_from_metadata updates the modes", f"{len(got)} call(s)", K.where(fu, fu.node))
 
 
 def r3(idx, rep):
